@@ -162,6 +162,7 @@ package gortsplib
 // after the two checks.
 //@ func (u *clientUDPListener) run
 //@   opt inline=0
+//@   assert[C19]@store:readPort u.readPort == 0 && u.c.AnyPortEnable
 //@   assert[C19]@call:timeNow ipeq(ref(u.readIP), off(u.readIP), len(u.readIP), ref(uaddr.IP), off(uaddr.IP), len(uaddr.IP)) && u.readPort == uaddr.Port
 //@   modifies *
 
@@ -193,3 +194,21 @@ package gortsplib
 //@   opt safety-tag=C20
 //@   requires trackID != "" || len(medias) >= 1
 //@   modifies nothing
+
+// A SETUP while recording is matched to a media only if the request URL EQUALS the media's
+// absolute control URL or one of the two URLs the server itself builds from path, query and
+// the relative control attribute (query-suffix and path-suffix forms).
+//@ func findMediaByURL
+//@   opt safety-tag=C20
+//@   requires u != nil
+//@   ensures[C20] ret != nil ==> ret.Control == urlstr(u.Scheme, u.Opaque, u.User, u.Host, u.Path, u.RawPath, u.OmitHost, u.ForceQuery, u.RawQuery, u.Fragment, u.RawFragment) || urlstr(u.Scheme, "", nil, u.Host, path, "", false, false, query + ("/" + ret.Control), "", "") == urlstr(u.Scheme, u.Opaque, u.User, u.Host, u.Path, u.RawPath, u.OmitHost, u.ForceQuery, u.RawQuery, u.Fragment, u.RawFragment) || urlstr(u.Scheme, "", nil, u.Host, path + ("/" + ret.Control), "", false, false, query, "", "") == urlstr(u.Scheme, u.Opaque, u.User, u.Host, u.Path, u.RawPath, u.OmitHost, u.ForceQuery, u.RawQuery, u.Fragment, u.RawFragment) || urlstr(u.Scheme, "", nil, u.Host, path + "/" + ret.Control, "", false, false, query, "", "") == urlstr(u.Scheme, u.Opaque, u.User, u.Host, u.Path, u.RawPath, u.OmitHost, u.ForceQuery, u.RawQuery, u.Fragment, u.RawFragment)
+//@   modifies fresh
+
+// --- C12: hostile RTP from a server -------------------------------------------------------------
+// Splitting header, payload and padding of a received packet never slices out of range,
+// whatever the padding count says.
+//@ func fastRTPUnmarshal
+//@   opt safety-tag=C12
+//@   requires header != nil && headerSize >= 0
+//@   ensures[C12] err == nil ==> ret != nil && len(ret.Payload) <= len(payload)
+//@   modifies fresh
